@@ -237,6 +237,7 @@ pub proof fn lemma_stamped_unread(ino: Inode, t: int, gran: int)
             ('C18 C05:error-is-explained',
              'old(w).solo ==> (r.is_err() ==> final(w).dirs == old(w).dirs && (final(w).hard_faults > old(w).hard_faults || !old(w).files.contains_key(pv(from)) '
              '|| !old(w).dirs.contains(parent(pv(to)))))'),
+            ('C01 C03 C19:publishing-never-changes-the-bytes-of-any-file', 'bytes_kept(*old(w), *final(w))'),
             ('C18 C02:on-error-either-nothing-or-exactly-the-publication-happened',
              'r.is_err() ==> attempt_effect(*old(w), *final(w), pv(from), pv(to))'),
             ('C18 C02:failed-publication-leaves-entries-alone',
@@ -281,6 +282,7 @@ pub proof fn lemma_stamped_unread(ino: Inode, t: int, gran: int)
             ('C18 C05:error-is-explained',
              'old(w).solo ==> (r.is_err() ==> final(w).dirs == old(w).dirs && (final(w).hard_faults > old(w).hard_faults || !old(w).files.contains_key(pv(from)) '
              '|| !old(w).dirs.contains(parent(pv(to)))))'),
+            ('C01 C03 C19:publishing-never-changes-the-bytes-of-any-file', 'bytes_kept(*old(w), *final(w))'),
             ('C18 C02:on-error-either-nothing-or-exactly-the-publication-happened',
              'r.is_err() ==> attempt_effect(*old(w), *final(w), pv(from), pv(to))'),
             ('C18 C02:failed-publication-leaves-entries-alone',
@@ -1397,6 +1399,8 @@ pub open spec fn write_frame(old: World, fin: World, base: PathV, name: Seq<u8>,
                  + (' && final(w).files[%s] == old(w).files[pv(value)]' % DST if opname == 'set' else '')),
                 ('C13 C11:success-means-a-publication-happened' + ('' if opname == 'set' else '-unless-the-key-was-already-bound'),
                  'r.is_ok() ==> final(w).published > old(w).published' + ('' if opname == 'set' else ' || old(w).files.contains_key(%s)' % DST)),
+                ('C01 C03 C19:a-write-never-changes-the-bytes-of-any-file',
+                 'bytes_kept(*old(w), *final(w))'),
                 ('C11 C04 C09 C10:exact-effect-when-nothing-failed',
                  'r.is_ok() && final(w).hard_faults == old(w).hard_faults && old(w).dirs.contains(self.spec_base()) ==> exists|m: World| #[trigger] %s(*old(w), m, *final(w), self.spec_base(), str_bytes(name), pv(value), r.unwrap().is_some())' % exact),
                 ('C15 C16 C17:nothing-outside-this-cache-directory-changes',
